@@ -540,3 +540,357 @@ Qed.
 Check C07_lib_statements_not_minus : forall O mw s,
   Formatter.starts_with_minus (Formatter.render (fst (fst (Formatter.lib_stmt O mw false s)))) = false.
 Print Assumptions C07_lib_statements_not_minus.
+
+(* ================================================================ the character level of the layouts: TOKENS
+   (proofs/FmtToks.v, FmtToksDoc.v, FmtToksAll.v — extension TOK, notes/ext-tok.md)
+   `toks` (FmtTokens.v) is a three-state character automaton (code / string literal / comment).
+   (1) It composes: reading a ++ b is reading a, then b from the state a stops in. *)
+Require Import Blots.proofs.FmtToks Blots.proofs.FmtToksDoc Blots.proofs.FmtToksAll.
+Theorem C07_toks_compose : forall a b m cur,
+  toks_from m cur (a ++ b)%string =
+  (fst (trun m cur a) ++ toks_from (fst (snd (trun m cur a))) (snd (snd (trun m cur a))) b)%list.
+Proof. exact toks_from_app. Qed.
+Check C07_toks_compose : forall a b m cur,
+  toks_from m cur (a ++ b)%string =
+  (fst (trun m cur a) ++ toks_from (fst (snd (trun m cur a))) (snd (snd (trun m cur a))) b)%list.
+Print Assumptions C07_toks_compose.
+
+(* The decidable boundary condition `boundary a b`: a stops in code state (every string literal closed,
+   not inside a comment) and either a stops with no open chunk (it ends with a blank, a line break, one of
+   ( ) [ ] { } , : , a closing quote or a comment line) or b starts with a blank, a line break, one of
+   ( ) [ ] { } , : or a quote.  (Two other character classes always merge into one chunk: `toks` does not
+   split operators from operands.)  Across a boundary the chunks are the chunks of the two parts. *)
+Theorem C07_toks_boundary : forall a b, boundary a b = true -> toks (a ++ b)%string = (toks a ++ toks b)%list.
+Proof. exact toks_app_boundary. Qed.
+Check C07_toks_boundary : forall a b, boundary a b = true -> toks (a ++ b)%string = (toks a ++ toks b)%list.
+Print Assumptions C07_toks_boundary.
+
+(* Separators: blanks, line breaks, indentation, end-of-line comments and comment lines (anything that,
+   read with any open chunk, closes it, yields nothing and stops at a chunk boundary) vanish. *)
+Theorem C07_toks_separator : forall a sep b, ends_code a = true -> is_sep sep ->
+  toks (a ++ sep ++ b)%string = (toks a ++ toks b)%list.
+Proof. exact toks_app_sep. Qed.
+Check C07_toks_separator : forall a sep b, ends_code a = true -> is_sep sep ->
+  toks (a ++ sep ++ b)%string = (toks a ++ toks b)%list.
+Print Assumptions C07_toks_separator.
+Theorem C07_toks_layout_separators : forall c n m, no_nl c = true ->
+  is_sep (Formatter.nl ++ Formatter.make_indent n) /\
+  is_sep ("  " ++ ("//" ++ c ++ Formatter.nl) ++ Formatter.make_indent n) /\
+  is_sep ((Formatter.nl ++ Formatter.make_indent n) ++ ("//" ++ c ++ Formatter.nl) ++ Formatter.make_indent m).
+Proof.
+  intros c n m H. split; [apply is_sep_nl_indent|]. split; [apply is_sep_eol_comment, H|apply is_sep_comment_line, H].
+Qed.
+Check C07_toks_layout_separators : forall c n m, no_nl c = true ->
+  is_sep (Formatter.nl ++ Formatter.make_indent n) /\
+  is_sep ("  " ++ ("//" ++ c ++ Formatter.nl) ++ Formatter.make_indent n) /\
+  is_sep ((Formatter.nl ++ Formatter.make_indent n) ++ ("//" ++ c ++ Formatter.nl) ++ Formatter.make_indent m).
+Print Assumptions C07_toks_layout_separators.
+
+(* The two states that swallow separators.  A string literal is ONE chunk whatever it contains (blanks,
+   line breaks, brackets, `//`), and the text after it is read from a chunk boundary; a comment runs to
+   the end of its line whatever it contains (quotes, brackets). *)
+Theorem C07_toks_string_literal : forall q body r cur,
+  Formatter.is_quote q = true -> nochar q body = true ->
+  toks_from LCode cur (String q (body ++ String q r)) =
+  (flush cur ++ String q (body ++ String q EmptyString) :: toks r)%list.
+Proof. exact toks_string_lit. Qed.
+Check C07_toks_string_literal : forall q body r cur,
+  Formatter.is_quote q = true -> nochar q body = true ->
+  toks_from LCode cur (String q (body ++ String q r)) =
+  (flush cur ++ String q (body ++ String q EmptyString) :: toks r)%list.
+Print Assumptions C07_toks_string_literal.
+Theorem C07_toks_comment : forall c r, no_nl c = true ->
+  trun LCom [] (c ++ String Formatter.NLc r) = trun LCode [] r.
+Proof. exact trun_comment. Qed.
+Check C07_toks_comment : forall c r, no_nl c = true ->
+  trun LCom [] (c ++ String Formatter.NLc r) = trun LCode [] r.
+Print Assumptions C07_toks_comment.
+
+(* (2) Documents.  `dok true d` is a decidable check on a document of Formatter.v: every piece, read from a
+   chunk boundary, stops in code state, and every seam between pieces is a `boundary`.  Then the chunks of
+   the rendered text are the chunks of the pieces, in order. *)
+Theorem C07_doc_toks : forall d, dok true d = true ->
+  toks (Formatter.render d) = flat_map piece_toks d /\ ends_code (Formatter.render d) = true.
+Proof. exact doc_toks. Qed.
+Check C07_doc_toks : forall d, dok true d = true ->
+  toks (Formatter.render d) = flat_map piece_toks d /\ ends_code (Formatter.render d) = true.
+Print Assumptions C07_doc_toks.
+
+(* EVERY layout of formatter.rs — format_expr_impl with the single-line test, format_multiline, the list /
+   record / call layouts, format_binary_op_multiline with its via/into/where arm (the re-assembled right
+   operand is the document itself: C07_relined_identity; no Relined piece, so no cr_free hypothesis),
+   format_conditional_multiline with its else-if chain, format_lambda, format_do_block_multiline with
+   protect_leading_minus, assignment, output — for ANY oracle record, width and indentation builds a
+   document with such seams only, for every tree with `tok_ok O e` (decidable): no comment annotations
+   (true of wf trees), and the texts taken from elsewhere — expr_to_source's and format_single_line's text
+   of every sub-expression, assigned names, parameter lists, record keys — stop in code state.
+   So no chunk of a laid-out text straddles two pieces and no piece is swallowed by a string or comment.
+   PARTIAL with respect to C07_layout_preserves_tokens_full: see C07_layout_view_full below. *)
+Theorem C07_layout_tokens_are_pieces_partial : forall O w e i, tok_ok O e = true ->
+  toks (Formatter.render (Formatter.fmtd O w e i)) = flat_map piece_toks (Formatter.fmtd O w e i) /\
+  ends_code (Formatter.render (Formatter.fmtd O w e i)) = true.
+Proof. exact layout_toks. Qed.
+Check C07_layout_tokens_are_pieces_partial : forall O w e i, tok_ok O e = true ->
+  toks (Formatter.render (Formatter.fmtd O w e i)) = flat_map piece_toks (Formatter.fmtd O w e i) /\
+  ends_code (Formatter.render (Formatter.fmtd O w e i)) = true.
+Print Assumptions C07_layout_tokens_are_pieces_partial.
+
+(* the hypothesis is satisfiable and the layouts are taken: the tree of C07_example_layout_multiline at
+   width 10, and a list / record / call / conditional / do-block tree at width 1 *)
+Example C07_example_layout_tokens :
+  let O := printer_oracles FX_ALL (policy_new fixed_opinfo) num_text true in
+  let e1 := EBin Where (EBin Via (EId "xs") (ELam [AReq "x"] (EBin Add (EBin Multiply (EId "x") (EId "k")) (EId "one"))))
+                 (EId "ok") in
+  let e2 := EDo [Cm [] (EAssign "t" (ECall (EId "f") [EList [Cm [] (EStr "a // b") None; Cm [] (EId "c") None];
+                                                       ERec [Cm [] (REntry (KStatic "k") (EId "v")) None]])) None]
+                (Cm [] (ECond (EId "t") (EId "a") (ECond (EId "u") (EId "b") (EId "c"))) None) in
+  tok_ok O e1 = true /\ tok_ok O e2 = true /\ wf e1 = true /\ wf e2 = true /\
+  Formatter.contains_nl (Formatter.render (Formatter.fmtd O 10 e1 0)) = true /\
+  Formatter.contains_nl (Formatter.render (Formatter.fmtd O 1 e2 0)) = true /\
+  dok true (Formatter.fmtd O 1 e2 0) = true /\
+  lview (Formatter.render (Formatter.fmtd O 1 e2 0)) = lview (print_text FX_ALL (policy_new fixed_opinfo) num_text e2).
+Proof. vm_compute. repeat split. Qed.
+
+(* C07_layout_preserves_tokens_full as stated above is REFUTED by the model: it quantifies over every
+   number-text oracle and every identifier string, and `wf` does not say that a name is a name.  With the
+   "identifier" `//` (which no parser produces) the one-line text `[//, b]` is `[` + a comment, while the
+   multi-line layout has `b,` and `]` on lines of their own.  Not a defect of the code: a missing
+   hypothesis of the statement (lexical sanity of the leaf texts) — `tok_ok` is that hypothesis. *)
+Lemma C07_layout_preserves_tokens_full_refuted : ~ C07_layout_preserves_tokens_full.
+Proof.
+  intro H.
+  specialize (H num_text true 1 (EList [Cm [] (EId "//") None; Cm [] (EId "b") None]) 0 eq_refl eq_refl eq_refl).
+  vm_compute in H. discriminate H.
+Qed.
+Print Assumptions C07_layout_preserves_tokens_full_refuted.
+
+(* The statement to prove, with the hypothesis it needs and WITHOUT cr_free (no longer needed after the
+   F55 repair: Formatter.v never builds a Relined piece, see dok_binop_doc / C07_relined_identity).
+   Proved towards it (below): the same CHUNKS for the recursive fragment operators / conditionals / assignment /
+   do-blocks (C07_layout_view_flat_partial), the same VIEW for lists and calls of chunk-equal elements
+   (C07_layout_view_list_partial, C07_layout_view_call_partial, via C07_canon_trailing_comma).
+   Still open:
+   (a) the general congruence of `canon` (a 4-token look-ahead rewriting) over seams — needed for lists / records /
+       calls whose elements are themselves lists / records / calls / lambdas, and for `x =>` (format_lambda,
+       format_single_line) against `(x) =>` (expr_to_source);
+   (b) the record family (same technique as list / call);
+   (c) tok_ok for the printer instance from `wf` + lexical sanity of names, number texts and quoted strings
+       (quote_string), and the side condition "last chunk of an element is not `,`" from the same. *)
+Definition C07_layout_view_full : Prop := forall numtxt keepc w e i,
+  wf e = true -> lam_ok e = true ->
+  let O := printer_oracles FX_ALL (policy_new fixed_opinfo) numtxt keepc in
+  tok_ok O e = true ->
+  lview (Formatter.render (Formatter.fmtd O w e i)) = lview (print_text FX_ALL (policy_new fixed_opinfo) numtxt e).
+
+(* (3) Families closed at the TEXT level (proofs/FmtToksBin.v).  Binary operators (all three arms of
+   format_binary_op_multiline incl. via/into/where), conditionals (both arms and the else-if chain of
+   format_conditional_multiline) and assignment: for trees whose laid-out part consists of these (`binfam`:
+   their operands are again of these kinds, or nodes always printed through expr_to_source — literals, names,
+   prefix / postfix operators, index, field), ANY printer version and policy, every width and indentation, the
+   laid-out text has exactly the chunks of the one-line text — already before `canon` (this fragment has no
+   trailing comma and no lambda), hence the same view.  No wf / lam_ok / cr_free hypothesis is needed.
+   PARTIAL with respect to C07_layout_view_full: list / record / call (trailing comma: canon), lambda (`x =>`
+   vs `(x) =>`: canon) and do-block (protect_leading_minus against the one-line printer's dominus rule: needs
+   lead_fmtd of FmtItems.v) are open. *)
+Require Import Blots.proofs.FmtToksBin.
+Theorem C07_layout_view_operators_conditionals_partial : forall fx pol numtxt keepc w e i,
+  binfam e = true -> tok_ok (printer_oracles fx pol numtxt keepc) e = true ->
+  toks (Formatter.render (Formatter.fmtd (printer_oracles fx pol numtxt keepc) w e i)) = toks (print_text fx pol numtxt e) /\
+  lview (Formatter.render (Formatter.fmtd (printer_oracles fx pol numtxt keepc) w e i)) = lview (print_text fx pol numtxt e).
+Proof.
+  intros fx pol numtxt keepc w e i Hb Hk. split.
+  - exact (binfam_toks fx pol numtxt keepc w e Hb Hk i).
+  - exact (binfam_lview fx pol numtxt keepc w e i Hb Hk).
+Qed.
+Check C07_layout_view_operators_conditionals_partial : forall fx pol numtxt keepc w e i,
+  binfam e = true -> tok_ok (printer_oracles fx pol numtxt keepc) e = true ->
+  toks (Formatter.render (Formatter.fmtd (printer_oracles fx pol numtxt keepc) w e i)) = toks (print_text fx pol numtxt e) /\
+  lview (Formatter.render (Formatter.fmtd (printer_oracles fx pol numtxt keepc) w e i)) = lview (print_text fx pol numtxt e).
+Print Assumptions C07_layout_view_operators_conditionals_partial.
+
+(* hypotheses satisfiable, layouts taken:
+   r = if a + b > c then (a - b) * c else if ok then -a ^ 2 else "x // y"   at width 10 *)
+Example C07_example_operators_conditionals :
+  let O := printer_oracles FX_ALL (policy_new fixed_opinfo) num_text true in
+  let e := EAssign "r" (ECond (EBin Greater (EBin Add (EId "a") (EId "b")) (EId "c"))
+                              (EBin Multiply (EBin Subtract (EId "a") (EId "b")) (EId "c"))
+                              (ECond (EId "ok") (EBin Power (EUn Negate (EId "a")) (ENum nzero))
+                                     (EStr "x // y"))) in
+  binfam e = true /\ tok_ok O e = true /\ wf e = true /\
+  Formatter.contains_nl (Formatter.render (Formatter.fmtd O 10 e 0)) = true.
+Proof. vm_compute. repeat split. Qed.
+
+(* The do-block family (proofs/FmtToksDo.v): format_do_block_multiline against the do-block arm of
+   expr_to_source.  If every statement x and the returned expression satisfy `child_ok` — lam_ok x, tok_ok x,
+   and at every indentation toks (layout of x) = toks (one-line text of x) — then the block's laid-out text has
+   exactly the chunks of its one-line text (same chunks, before canon).  protect_leading_minus (decided on the
+   LAID-OUT text, "no statement before") agrees with the one-line printer's rule (decided on the one-line text,
+   statement index) because no layout changes how a text starts (FmtItems.lead_fmtd): this needs lam_ok, the
+   repaired do-block rule and the repaired policy.  A family theorem with the children's equalities as
+   hypotheses: it is not yet folded into the recursive fragment `binfam` (the fragment theorem would need
+   lam_ok / fx_dominus / policy_new throughout). *)
+Require Import Blots.proofs.FmtToksDo.
+Theorem C07_layout_view_do_block_partial : forall oi fx numtxt keepc w stmts ret i,
+  fx_dominus fx = true ->
+  plain_items stmts = true ->
+  tok_ok (printer_oracles fx (policy_new oi) numtxt keepc) (EDo stmts (Cm [] ret None)) = true ->
+  Forall (fun c => child_ok oi fx numtxt keepc w (cnode c)) stmts -> child_ok oi fx numtxt keepc w ret ->
+  toks (Formatter.render (Formatter.fmtd (printer_oracles fx (policy_new oi) numtxt keepc) w (EDo stmts (Cm [] ret None)) i))
+  = toks (print_text fx (policy_new oi) numtxt (EDo stmts (Cm [] ret None))).
+Proof. intros oi fx numtxt keepc w stmts ret i Hd. exact (do_family oi fx numtxt keepc w Hd stmts ret i). Qed.
+Check C07_layout_view_do_block_partial : forall oi fx numtxt keepc w stmts ret i,
+  fx_dominus fx = true ->
+  plain_items stmts = true ->
+  tok_ok (printer_oracles fx (policy_new oi) numtxt keepc) (EDo stmts (Cm [] ret None)) = true ->
+  Forall (fun c => child_ok oi fx numtxt keepc w (cnode c)) stmts -> child_ok oi fx numtxt keepc w ret ->
+  toks (Formatter.render (Formatter.fmtd (printer_oracles fx (policy_new oi) numtxt keepc) w (EDo stmts (Cm [] ret None)) i))
+  = toks (print_text fx (policy_new oi) numtxt (EDo stmts (Cm [] ret None))).
+Print Assumptions C07_layout_view_do_block_partial.
+
+(* the hypotheses are satisfiable: a block whose second statement starts with `-` (protected in both
+   printers) and whose statements are in the operator / conditional fragment (child_ok from
+   C07_layout_view_operators_conditionals_partial) *)
+Example C07_example_do_block :
+  let O := printer_oracles FX_ALL (policy_new fixed_opinfo) num_text true in
+  let s1 := EAssign "t" (EBin Add (EId "a") (EId "b")) in
+  let s2 := EBin Subtract (EUn Negate (EId "t")) (EId "c") in
+  let r := ECond (EId "ok") (EId "t") (EUn Negate (EId "t")) in
+  let e := EDo [Cm [] s1 None; Cm [] s2 None] (Cm [] r None) in
+  fx_dominus FX_ALL = true /\ tok_ok O e = true /\ wf e = true /\
+  (binfam s1 && binfam s2 && binfam r && lam_ok s1 && lam_ok s2 && lam_ok r)%bool = true /\
+  toks (Formatter.render (Formatter.fmtd O 10 e 0)) = toks (print_text FX_ALL (policy_new fixed_opinfo) num_text e) /\
+  existsb (String.eqb "(") (toks (Formatter.render (Formatter.fmtd O 10 e 0))) = true.
+Proof. vm_compute. repeat split. Qed.
+
+(* The recursive fragment with do-blocks (proofs/FmtToksFlat.v): `flatfam e` — every node a layout function
+   recurses into is a binary operator, a conditional, an assignment, a do-block (no comment annotations) or a
+   node always printed through expr_to_source (literal, name, prefix / postfix operator, index, field access,
+   whatever it contains); no list, record, call or lambda in a laid-out position.  For such trees, at every
+   width and indentation, the laid-out text has exactly the chunks of the one-line text, hence the same view.
+   PARTIAL with respect to C07_layout_view_full: the list / record / call layouts (trailing comma) and
+   format_lambda (`x =>` vs `(x) =>`) differ from the one-line text at the chunk level and need the `canon`
+   congruence; nothing else is open at this level. *)
+Require Import Blots.proofs.FmtToksFlat.
+Theorem C07_layout_view_flat_partial : forall oi fx numtxt keepc w e i,
+  fx_dominus fx = true -> flatfam e = true -> lam_ok e = true ->
+  tok_ok (printer_oracles fx (policy_new oi) numtxt keepc) e = true ->
+  toks (Formatter.render (Formatter.fmtd (printer_oracles fx (policy_new oi) numtxt keepc) w e i))
+  = toks (print_text fx (policy_new oi) numtxt e) /\
+  lview (Formatter.render (Formatter.fmtd (printer_oracles fx (policy_new oi) numtxt keepc) w e i))
+  = lview (print_text fx (policy_new oi) numtxt e).
+Proof.
+  intros oi fx numtxt keepc w e i Hd Hf Hl Hk.
+  pose proof (flatfam_toks oi fx numtxt keepc w Hd e i Hf Hl Hk) as H.
+  split; [exact H|]. unfold lview. now rewrite H.
+Qed.
+Check C07_layout_view_flat_partial : forall oi fx numtxt keepc w e i,
+  fx_dominus fx = true -> flatfam e = true -> lam_ok e = true ->
+  tok_ok (printer_oracles fx (policy_new oi) numtxt keepc) e = true ->
+  toks (Formatter.render (Formatter.fmtd (printer_oracles fx (policy_new oi) numtxt keepc) w e i))
+  = toks (print_text fx (policy_new oi) numtxt e) /\
+  lview (Formatter.render (Formatter.fmtd (printer_oracles fx (policy_new oi) numtxt keepc) w e i))
+  = lview (print_text fx (policy_new oi) numtxt e).
+Print Assumptions C07_layout_view_flat_partial.
+
+(* satisfiable, layouts taken: a do-block inside a conditional inside an assignment, second statement
+   starting with `-`, width 10 *)
+Example C07_example_flat :
+  let O := printer_oracles FX_ALL (policy_new fixed_opinfo) num_text true in
+  let blk := EDo [Cm [] (EAssign "t" (EBin Add (EId "a") (EId "b"))) None;
+                  Cm [] (EBin Subtract (EUn Negate (EId "t")) (EId "c")) None]
+                 (Cm [] (ECond (EId "ok") (EId "t") (EUn Negate (EId "t"))) None) in
+  let e := EAssign "r" (ECond (EBin Greater (EId "a") (EId "b")) blk (EStr "x // y")) in
+  flatfam e = true /\ lam_ok e = true /\ tok_ok O e = true /\ wf e = true /\
+  Formatter.contains_nl (Formatter.render (Formatter.fmtd O 10 e 0)) = true.
+Proof. vm_compute. repeat split. Qed.
+
+(* The list family at the VIEW level (proofs/FmtToksCanon.v, FmtToksList.v).  `canon` ignores a `,` directly
+   before a closer at the end of a chunk list (3-chunk look-ahead; the condition on X is needed: `,,]`). *)
+Require Import Blots.proofs.FmtToksCanon Blots.proofs.FmtToksList.
+Theorem C07_canon_trailing_comma : forall X c, is_closer c = true -> (X = [] \/ last X "" <> ",") ->
+  canon (X ++ [","; c])%list = canon (X ++ [c])%list.
+Proof. exact canon_trailing. Qed.
+Check C07_canon_trailing_comma : forall X c, is_closer c = true -> (X = [] \/ last X "" <> ",") ->
+  canon (X ++ [","; c])%list = canon (X ++ [c])%list.
+Print Assumptions C07_canon_trailing_comma.
+
+(* format_list_multiline (a `,` after EVERY element) against expr_to_source (between elements): if every
+   element x has `lchild_ok` — tok_ok x, format_single_line's text of x is the one-line text, and at every
+   indentation toks (layout of x) = toks (one-line text of x) (true of every element in the fragment of
+   C07_layout_view_flat_partial) — and the last chunk of the last element is not `,`, the laid-out list and the
+   one-line list have the same view, at every width and indentation, for any printer version.  Family theorem with
+   the elements' equalities as hypotheses; elements that are themselves lists / records / calls / lambdas
+   (chunk lists equal only up to canon) need the general congruence of canon: open. *)
+Theorem C07_layout_view_list_partial : forall fx pol numtxt keepc w items i,
+  plain_items items = true ->
+  tok_ok (printer_oracles fx pol numtxt keepc) (EList items) = true ->
+  Forall (fun c => lchild_ok fx pol numtxt keepc w (cnode c)) items ->
+  last ("[" :: joinc (map (Tc fx pol numtxt) items)) "" <> "," ->
+  lview (Formatter.render (Formatter.fmtd (printer_oracles fx pol numtxt keepc) w (EList items) i))
+  = lview (print_text fx pol numtxt (EList items)).
+Proof. exact list_family. Qed.
+Check C07_layout_view_list_partial : forall fx pol numtxt keepc w items i,
+  plain_items items = true ->
+  tok_ok (printer_oracles fx pol numtxt keepc) (EList items) = true ->
+  Forall (fun c => lchild_ok fx pol numtxt keepc w (cnode c)) items ->
+  last ("[" :: joinc (map (Tc fx pol numtxt) items)) "" <> "," ->
+  lview (Formatter.render (Formatter.fmtd (printer_oracles fx pol numtxt keepc) w (EList items) i))
+  = lview (print_text fx pol numtxt (EList items)).
+Print Assumptions C07_layout_view_list_partial.
+
+(* satisfiable: [a + b, "x, y"] at width 1 (elements from the operator fragment) *)
+Example C07_example_list :
+  let O := printer_oracles FX_ALL (policy_new fixed_opinfo) num_text true in
+  let items := [Cm [] (EBin Add (EId "a") (EId "b")) None; Cm [] (EStr "x, y") None] in
+  plain_items items = true /\ tok_ok O (EList items) = true /\
+  Forall (fun c => lchild_ok FX_ALL (policy_new fixed_opinfo) num_text true 1 (cnode c)) items /\
+  last ("[" :: joinc (map (Tc FX_ALL (policy_new fixed_opinfo) num_text) items)) "" <> "," /\
+  Formatter.contains_nl (Formatter.render (Formatter.fmtd O 1 (EList items) 0)) = true /\
+  toks (Formatter.render (Formatter.fmtd O 1 (EList items) 0))
+  <> toks (print_text FX_ALL (policy_new fixed_opinfo) num_text (EList items)).
+Proof.
+  cbv zeta. split; [reflexivity|]. split; [vm_compute; reflexivity|]. split.
+  - repeat constructor; try (vm_compute; reflexivity);
+      intro j; apply binfam_toks; vm_compute; reflexivity.
+  - split; [vm_compute; discriminate|]. split; [vm_compute; reflexivity|vm_compute; discriminate].
+Qed.
+
+(* The call family (proofs/FmtToksCall.v): format_call_multiline (a `,` after EVERY argument; the grammar admits
+   the last one only because a line break follows) against expr_to_source, for a callee and arguments with
+   `lchild_ok`, a policy whose callee rule is needs_parens_in_postfix (pC = pP: true of the repaired policy), and
+   "the last chunk before the trailing comma is not `,`": same view at every width and indentation. *)
+Require Import Blots.proofs.FmtToksCall.
+Theorem C07_layout_view_call_partial : forall fx pol numtxt keepc w,
+  (forall c, pC pol c = pP pol c) ->
+  forall f args i,
+  tok_ok (printer_oracles fx pol numtxt keepc) (ECall f args) = true ->
+  lchild_ok fx pol numtxt keepc w f -> Forall (lchild_ok fx pol numtxt keepc w) args ->
+  last (wrapT (pP pol f) (Te fx pol numtxt f) ++ "(" :: joinc (map (Te fx pol numtxt) args))%list "" <> "," ->
+  lview (Formatter.render (Formatter.fmtd (printer_oracles fx pol numtxt keepc) w (ECall f args) i))
+  = lview (print_text fx pol numtxt (ECall f args)).
+Proof. exact call_family. Qed.
+Check C07_layout_view_call_partial : forall fx pol numtxt keepc w,
+  (forall c, pC pol c = pP pol c) ->
+  forall f args i,
+  tok_ok (printer_oracles fx pol numtxt keepc) (ECall f args) = true ->
+  lchild_ok fx pol numtxt keepc w f -> Forall (lchild_ok fx pol numtxt keepc w) args ->
+  last (wrapT (pP pol f) (Te fx pol numtxt f) ++ "(" :: joinc (map (Te fx pol numtxt) args))%list "" <> "," ->
+  lview (Formatter.render (Formatter.fmtd (printer_oracles fx pol numtxt keepc) w (ECall f args) i))
+  = lview (print_text fx pol numtxt (ECall f args)).
+Print Assumptions C07_layout_view_call_partial.
+
+(* satisfiable: f(a + b, "x, y") at width 1 *)
+Example C07_example_call :
+  let O := printer_oracles FX_ALL (policy_new fixed_opinfo) num_text true in
+  let args := [EBin Add (EId "a") (EId "b"); EStr "x, y"] in
+  (forall c, pC (policy_new fixed_opinfo) c = pP (policy_new fixed_opinfo) c) /\
+  tok_ok O (ECall (EId "f") args) = true /\
+  lchild_ok FX_ALL (policy_new fixed_opinfo) num_text true 1 (EId "f") /\
+  Forall (lchild_ok FX_ALL (policy_new fixed_opinfo) num_text true 1) args /\
+  Formatter.contains_nl (Formatter.render (Formatter.fmtd O 1 (ECall (EId "f") args) 0)) = true.
+Proof.
+  cbv zeta. split; [reflexivity|]. split; [vm_compute; reflexivity|]. split.
+  - repeat split; try (vm_compute; reflexivity). intro j; apply binfam_toks; vm_compute; reflexivity.
+  - split; [|vm_compute; reflexivity].
+    repeat constructor; try (vm_compute; reflexivity); intro j; apply binfam_toks; vm_compute; reflexivity.
+Qed.
